@@ -267,33 +267,37 @@ def gains_bounded_instance():
                 return big[..., ::2]
             return a
 
+        # the importance-weight option of every trainer (every second scene)
+        sal = rng.uniform(0.2, 2.0, size=(F, N)) if inp['seed'] % 2 else None
+        kws = dict(kw, saliency=sal)
+
         def run(yy, ee):
             yy, ee = relayout(yy), relayout(ee)
             if which in ('cacgmm', 'cacgmm-ll'):
-                m = CACGMMTrainer().fit(yy, initialization=init, iterations=it, **kw)
+                m = CACGMMTrainer().fit(yy, initialization=init, iterations=it, **kws)
                 return [m.predict(yy), np.asarray(m.log_likelihood(yy)), m.weight, m.cacg.covariance_eigenvalues, m.cacg.covariance]
             if which == 'cwmm':
-                m = mk(CWMMTrainer).fit(yy, initialization=init, iterations=it, **kw)
+                m = mk(CWMMTrainer).fit(yy, initialization=init, iterations=it, **kws)
                 return [m.predict(yy), m.weight, np.asarray(m.complex_watson.concentration)]
             if which == 'cwmm-fit_predict':
-                return [mk(CWMMTrainer).fit_predict(yy, initialization=init, iterations=it, **kw)]
+                return [mk(CWMMTrainer).fit_predict(yy, initialization=init, iterations=it, **kws)]
             if which == 'cbmm':
                 m = mk(CBMMTrainer).fit(yy[:, :8], initialization=init[:, :, :8], iterations=1)
                 return [m.predict(yy[:, :8]), m.weight]
             if which == 'vmfmm':
-                m = VMFMMTrainer().fit(yy, initialization=init, iterations=it, **kw)
+                m = VMFMMTrainer().fit(yy, initialization=init, iterations=it, **kws)
                 return [m.predict(yy), m.weight, m.vmf.mean, np.asarray(m.vmf.concentration)]
             if which in ('gcacgmm', 'vmfcacgmm'):
                 cls = GCACGMMTrainer if which == 'gcacgmm' else VMFCACGMMTrainer
-                m = cls().fit(yy, ee if which == 'vmfcacgmm' else emb, initialization=init, iterations=it, **kw)
+                m = cls().fit(yy, ee if which == 'vmfcacgmm' else emb, initialization=init, iterations=it, **kws)
                 return [m.predict(yy, ee if which == 'vmfcacgmm' else emb), m.cacg.covariance_eigenvalues]
             if which == 'cacg':
-                m = ComplexAngularCentralGaussianTrainer().fit(yy, iterations=it)
+                m = ComplexAngularCentralGaussianTrainer().fit(yy, iterations=it)        # (the stand-alone cACG trainer rejects a saliency explicitly)
                 return [m.covariance_eigenvalues, m.covariance, m.log_pdf(yy)]
             if which == 'watson':
-                m = ComplexWatsonTrainer().fit(yy)
+                m = ComplexWatsonTrainer().fit(yy, saliency=sal)
                 return [np.asarray(m.concentration), np.abs(m.mode)]
-            m = VonMisesFisherTrainer().fit(yy)
+            m = VonMisesFisherTrainer().fit(yy, saliency=sal)
             return [m.mean, np.asarray(m.concentration), m.log_pdf(yy)]
         with np.errstate(all='ignore'):
             return {'base': run(y, emb), 'scaled': run(c * y, ce * emb)}
